@@ -41,7 +41,7 @@ P = {}
 STATS = Counter()
 LAST = {}
 
-FILES = ["/r/a.c", "/r/d/b.c", "/r/d/e/c.h", "/r/unused.c", "/r/lnk.c"]  # lnk.c -> a.c
+FILES = ["/r/a.c", "/r/d/b.c", "/r/d/e/c.h", "/r/unused.c", "/r/d/lnk.c"]  # lnk.c -> a.c
 NODES = [("/r/a.c", 0), ("/r/a.c", 1), ("/r/d/b.c", 2), ("/r/d/e/c.h", 3), ("/r/unused.c", 4)]
 PLATS = ["p", "q", "s"]
 
@@ -50,7 +50,7 @@ def _fs():
     fs = memfs.MemFS("/r")
     for f in FILES[:4]:
         fs.add(f, ["@"])
-    fs.symlink("/r/lnk.c", "/r/a.c")
+    fs.symlink("/r/d/lnk.c", "/r/a.c")
     return fs
 
 
@@ -190,13 +190,13 @@ def h_sums(n0: int, n1: int, n2: int, n3: int, n4: int, k0: int, k1: int, k2: in
         files_in_tree = {p for p in nodes if p in by_file}
         if files_in_tree != set(present):
             why = "files in tree %s != %s (prune=%s)" % (sorted(files_in_tree), sorted(present), bool(prune))
-        elif ("/r/lnk.c" in nodes) != (used["/r/a.c"] or not prune):
+        elif ("/r/d/lnk.c" in nodes) != (used["/r/a.c"] or not prune):
             why = "symlink row presence"
         else:
             for p, node in nodes.items():
                 if p in by_file:
                     exp = file_sum(by_file[p])
-                elif p == "/r/lnk.c":
+                elif p == "/r/d/lnk.c":
                     exp = file_sum(by_file["/r/a.c"])  # the link row shows its target's figures but is not propagated
                 else:
                     exp = file_sum([i for f in present if f.startswith(p + "/") for i in by_file[f]])
